@@ -65,11 +65,28 @@ def opConfig (j : Json) : Json :=
         | .ok (v, st) =>
           Json.mkObj [("ok", valJ v), ("log", .arr (st.log.map (fun e => Json.mkObj [("p", pathJ e.path), ("w", .str e.what)])).toArray)]
 
+/-- op "upd": the C02 specification — fold the tag-erased documents with `upd` -/
+def opUpd (j : Json) : Json :=
+  match parseDocs j with
+  | .error e => Json.mkObj [("bad", .str e)]
+  | .ok docs =>
+    match foldUpd (docs.map (fun d => plainOfRaw d.2)) with
+    | .error e => errJ e
+    | .ok p => Json.mkObj [("ok", plainJ p)]
+
+/-- op "erase": the C01 specification — the tag-erased data of every document -/
+def opErase (j : Json) : Json :=
+  match parseDocs j with
+  | .error e => Json.mkObj [("bad", .str e)]
+  | .ok docs => Json.mkObj [("ok", .arr (docs.map (fun d => plainJ (plainOfRaw d.2))).toArray)]
+
 def dispatch (j : Json) : Json :=
   match j.getObjVal? "op" with
   | .ok (.str "parse") => opParse j
   | .ok (.str "merge") => opMerge j
   | .ok (.str "config") => opConfig j
+  | .ok (.str "upd") => opUpd j
+  | .ok (.str "erase") => opErase j
   | _ => Json.mkObj [("bad", .str "unknown op")]
 
 partial def loop (h : IO.FS.Stream) (out : IO.FS.Stream) : IO Unit := do
